@@ -518,6 +518,7 @@ def completion_outside_sending_order(F, R, ver):
         return
     blind = [bi for bi, t, ap in takes if re.search(r'::(pop_front|pop_back)$', callee_name(t) or '')]
     selective = True
+    by_id = []
     for bi, t, ap in takes:
         if bi in blind:
             continue
@@ -534,10 +535,18 @@ def completion_outside_sending_order(F, R, ver):
                 for x, y, s_ in c.assigns():
                     if s_['rv']['k'] == 'discr' and (s_['rv'].get('adt') or '').endswith('shared::AckType'):
                         tests_kind = True
+                # a predicate that also compares the entry's packet id with the acknowledgement's (the PUBCOMP selector)
+                cmp_ = any(s_['rv']['k'] == 'bin' and s_['rv']['op'] in ('Eq', 'Ne') for x, y, s_ in c.assigns()) or \
+                    any(re.search(r'PartialEq.*::(eq|ne)$', callee_name(t_) or '') and 'NonZero' in ' '.join(str(c.local_ty((op_place(a_) or {}).get('l', 0))) for a_ in t_['args']) for x, t_ in c.calls())
+                if tests_kind and cmp_:
+                    by_id.append(c.path)
             selective = selective and tests_kind
     R.ob('C06.id-discipline', '%s|pkt_ack_inner|awaiting-PUBCOMP-entries-are-not-in-the-sending-order' % ver, not blind and selective,
          'an exchange that waits for PUBCOMP stays in the queue that acknowledgements are taken from blindly (%s): with a QoS 2 publish acknowledged by PUBREC and not yet released, the PUBACK of a later QoS 1 publish - or the PUBCOMP of another QoS 2 publish released first - is a packet-id mismatch and ends the connection although the peer is correct'
          % ('pop from an end of the queue' if blind else 'the position predicate does not look at the entry kind'), p.loc(blind[0]) if blind else p.loc(takes[0][0]))
+    if not blind and selective:
+        R.ob('C06.id-discipline', '%s|pkt_ack_inner|PUBCOMP-answers-the-entry-with-its-own-id' % ver, bool(by_id),
+             'no selector compares the packet id of an awaiting-PUBCOMP entry with the PUBCOMP received: the PUBCOMP of an exchange released out of PUBREC order is matched with another exchange (mismatch, the connection is closed)', p.loc(takes[0][0]))
 
 
 def run(F, R):
